@@ -11,7 +11,10 @@ use std::str::FromStr;
 use std::sync::Arc;
 
 const M: u64 = u64::MAX;
-const BIG: [u64; 8] = [0, 1, 9, 10, (1 << 53) + 1, (1 << 63) - 1, M - 1, M];
+// boundary values: digit-count changes, binary widths, the f64 integer limit, the signed limit, and the
+// library's own documented constant (default replenish amount 80) with its neighbours
+const BIG: [u64; 24] = [0, 1, 9, 10, 79, 80, 81, 99, 100, 255, 256, 65535, 65536, (1 << 31) - 1, 1 << 32, (1 << 53) - 1, 1 << 53, (1 << 53) + 1,
+                        (1 << 63) - 1, 1 << 63, (1 << 63) + 1, M / 10, M - 1, M];
 
 fn s<T: ToString>(x: T) -> Value {
     json!(x.to_string())
@@ -27,12 +30,34 @@ fn tif_v(t: &TimeInForce) -> Value {
     }
 }
 
+// Projections must not go through the library's own Display (the code under test): a lossy Display
+// would blind the comparison of a value with the value parsed back from its text.
 fn side_v(x: Side) -> Value {
-    json!(x.to_string())
+    json!(match x {
+        Side::Buy => "BUY",
+        Side::Sell => "SELL",
+    })
+}
+
+/// canonical rendering of an order id by the uuid / ulid crates (not the library's Display)
+fn oid_s(id: &OrderId) -> Value {
+    json!(match id {
+        OrderId::Uuid(u) => u.as_hyphenated().to_string(),
+        OrderId::Ulid(u) => u.to_string(),
+    })
+}
+
+fn peg_v(x: &PegReferenceType) -> Value {
+    json!(match x {
+        PegReferenceType::BestBid => "BestBid",
+        PegReferenceType::BestAsk => "BestAsk",
+        PegReferenceType::MidPrice => "MidPrice",
+        PegReferenceType::LastTrade => "LastTrade",
+    })
 }
 
 pub fn order_v(o: &OrderType<()>) -> Value {
-    let mut v = json!({"kind": "", "id": o.id().to_string(), "price": s(o.price()), "vis": s(o.visible_quantity()), "hid": "", "side": side_v(o.side()),
+    let mut v = json!({"kind": "", "id": oid_s(&o.id()), "price": s(o.price()), "vis": s(o.visible_quantity()), "hid": "", "side": side_v(o.side()),
                        "ts": s(o.timestamp()), "tif": tif_v(&o.time_in_force()), "thr": "", "amt": "", "auto": "", "trail": "", "lastref": "", "off": "", "peg": ""});
     match o {
         OrderType::Standard { .. } => v["kind"] = json!("Standard"),
@@ -50,7 +75,7 @@ pub fn order_v(o: &OrderType<()>) -> Value {
         OrderType::PeggedOrder { reference_price_offset, reference_price_type, .. } => {
             v["kind"] = json!("PeggedOrder");
             v["off"] = s(reference_price_offset);
-            v["peg"] = s(reference_price_type);
+            v["peg"] = peg_v(reference_price_type);
         }
         OrderType::ReserveOrder { hidden_quantity, replenish_threshold, replenish_amount, auto_replenish, .. } => {
             v["kind"] = json!("ReserveOrder");
@@ -65,22 +90,22 @@ pub fn order_v(o: &OrderType<()>) -> Value {
 
 fn update_v(u: &OrderUpdate) -> Value {
     match u {
-        OrderUpdate::UpdatePrice { order_id, new_price } => json!({"kind": "UpdatePrice", "id": s(order_id), "price": s(new_price), "qty": "", "side": ""}),
-        OrderUpdate::UpdateQuantity { order_id, new_quantity } => json!({"kind": "UpdateQuantity", "id": s(order_id), "price": "", "qty": s(new_quantity), "side": ""}),
-        OrderUpdate::UpdatePriceAndQuantity { order_id, new_price, new_quantity } => json!({"kind": "UpdatePriceAndQuantity", "id": s(order_id), "price": s(new_price), "qty": s(new_quantity), "side": ""}),
-        OrderUpdate::Cancel { order_id } => json!({"kind": "Cancel", "id": s(order_id), "price": "", "qty": "", "side": ""}),
-        OrderUpdate::Replace { order_id, price, quantity, side } => json!({"kind": "Replace", "id": s(order_id), "price": s(price), "qty": s(quantity), "side": side_v(*side)}),
+        OrderUpdate::UpdatePrice { order_id, new_price } => json!({"kind": "UpdatePrice", "id": oid_s(order_id), "price": s(new_price), "qty": "", "side": ""}),
+        OrderUpdate::UpdateQuantity { order_id, new_quantity } => json!({"kind": "UpdateQuantity", "id": oid_s(order_id), "price": "", "qty": s(new_quantity), "side": ""}),
+        OrderUpdate::UpdatePriceAndQuantity { order_id, new_price, new_quantity } => json!({"kind": "UpdatePriceAndQuantity", "id": oid_s(order_id), "price": s(new_price), "qty": s(new_quantity), "side": ""}),
+        OrderUpdate::Cancel { order_id } => json!({"kind": "Cancel", "id": oid_s(order_id), "price": "", "qty": "", "side": ""}),
+        OrderUpdate::Replace { order_id, price, quantity, side } => json!({"kind": "Replace", "id": oid_s(order_id), "price": s(price), "qty": s(quantity), "side": side_v(*side)}),
     }
 }
 
 fn tx_v(t: &Transaction) -> Value {
-    json!({"txid": s(t.transaction_id), "taker": s(t.taker_order_id), "maker": s(t.maker_order_id), "price": s(t.price), "qty": s(t.quantity),
+    json!({"txid": s(t.transaction_id), "taker": oid_s(&t.taker_order_id), "maker": oid_s(&t.maker_order_id), "price": s(t.price), "qty": s(t.quantity),
            "side": side_v(t.taker_side), "ts": s(t.timestamp)})
 }
 
 fn mres_v(m: &MatchResult) -> Value {
-    json!({"id": s(m.order_id), "rem": s(m.remaining_quantity), "complete": s(m.is_complete),
-           "txs": m.transactions.as_vec().iter().map(tx_v).collect::<Vec<_>>(), "filled": m.filled_order_ids.iter().map(s).collect::<Vec<_>>()})
+    json!({"id": oid_s(&m.order_id), "rem": s(m.remaining_quantity), "complete": s(m.is_complete),
+           "txs": m.transactions.as_vec().iter().map(tx_v).collect::<Vec<_>>(), "filled": m.filled_order_ids.iter().map(oid_s).collect::<Vec<_>>()})
 }
 
 fn stats_v(x: &PriceLevelStatistics) -> Value {
@@ -139,6 +164,44 @@ fn side(rng: &mut Rng) -> Side {
         Side::Buy
     } else {
         Side::Sell
+    }
+}
+
+/// every numeric field of the order := b (replenish amount Some(b), or None when `none`)
+fn set_all(o: &mut OrderType<()>, b: u64, none: bool) {
+    match o {
+        OrderType::Standard { price, quantity, timestamp, .. } | OrderType::PostOnly { price, quantity, timestamp, .. } | OrderType::MarketToLimit { price, quantity, timestamp, .. } => {
+            *price = b;
+            *quantity = b;
+            *timestamp = b;
+        }
+        OrderType::IcebergOrder { price, visible_quantity, hidden_quantity, timestamp, .. } => {
+            *price = b;
+            *visible_quantity = b;
+            *hidden_quantity = b;
+            *timestamp = b;
+        }
+        OrderType::TrailingStop { price, quantity, timestamp, trail_amount, last_reference_price, .. } => {
+            *price = b;
+            *quantity = b;
+            *timestamp = b;
+            *trail_amount = b;
+            *last_reference_price = b;
+        }
+        OrderType::PeggedOrder { price, quantity, timestamp, reference_price_offset, .. } => {
+            *price = b;
+            *quantity = b;
+            *timestamp = b;
+            *reference_price_offset = b as i64;
+        }
+        OrderType::ReserveOrder { price, visible_quantity, hidden_quantity, timestamp, replenish_threshold, replenish_amount, .. } => {
+            *price = b;
+            *visible_quantity = b;
+            *hidden_quantity = b;
+            *timestamp = b;
+            *replenish_threshold = b;
+            *replenish_amount = if none { None } else { Some(b) };
+        }
     }
 }
 
@@ -475,10 +538,19 @@ pub fn run(sc: &Value) -> Vec<String> {
         cline(&mut out, &mut encs, "side", side_v(x), Some(rt_text(&x, |y| side_v(*y))), Some(rt_json(&x, |y| side_v(*y))), Value::Null);
     }
     for x in [PegReferenceType::BestBid, PegReferenceType::BestAsk, PegReferenceType::MidPrice, PegReferenceType::LastTrade] {
-        cline(&mut out, &mut encs, "peg", s(x), Some(rt_text(&x, |y| s(*y))), Some(rt_json(&x, |y| s(*y))), Value::Null);
+        cline(&mut out, &mut encs, "peg", peg_v(&x), Some(rt_text(&x, peg_v)), Some(rt_json(&x, peg_v)), Value::Null);
     }
     for x in [OrderStatus::New, OrderStatus::Active, OrderStatus::PartiallyFilled, OrderStatus::Filled, OrderStatus::Canceled, OrderStatus::Rejected, OrderStatus::Expired] {
-        cline(&mut out, &mut encs, "status", s(x), Some(rt_text(&x, |y| s(*y))), None, Value::Null);
+        let sv = |y: &OrderStatus| json!(match y {
+            OrderStatus::New => "NEW",
+            OrderStatus::Active => "ACTIVE",
+            OrderStatus::PartiallyFilled => "PARTIALLYFILLED",
+            OrderStatus::Filled => "FILLED",
+            OrderStatus::Canceled => "CANCELED",
+            OrderStatus::Rejected => "REJECTED",
+            OrderStatus::Expired => "EXPIRED",
+        });
+        cline(&mut out, &mut encs, "status", sv(&x), Some(rt_text(&x, sv)), None, Value::Null);
     }
     let mut tifs = vec![TimeInForce::Gtc, TimeInForce::Ioc, TimeInForce::Fok, TimeInForce::Day];
     tifs.extend(BIG.iter().map(|b| TimeInForce::Gtd(*b)));
@@ -487,11 +559,19 @@ pub fn run(sc: &Value) -> Vec<String> {
     }
     for _ in 0..n.max(12) {
         let x = ids(&mut rng);
-        cline(&mut out, &mut encs, "id", s(x), Some(rt_text(&x, |y| s(*y))), Some(rt_json(&x, |y| s(*y))), Value::Null);
+        cline(&mut out, &mut encs, "id", oid_s(&x), Some(rt_text(&x, oid_s)), Some(rt_json(&x, oid_s)), Value::Null);
     }
     for i in 0..(7 * n.max(4)) {
         let x = order(&mut rng, i);
         cline(&mut out, &mut encs, "order", order_v(&x), Some(rt_text(&x, order_v)), Some(rt_json(&x, order_v)), Value::Null);
+    }
+    // boundary sweep: every order type with every numeric field at every boundary value (always, whatever n)
+    for b in BIG.iter() {
+        for kind in 0..8 {
+            let mut x = order(&mut rng, kind.min(6));
+            set_all(&mut x, *b, kind == 7);
+            cline(&mut out, &mut encs, "order", order_v(&x), Some(rt_text(&x, order_v)), Some(rt_json(&x, order_v)), Value::Null);
+        }
     }
     for i in 0..(5 * n.max(4)) {
         let id = ids(&mut rng);
